@@ -346,8 +346,10 @@ struct MemWorld : World
         case C_ACCEPT:
         case C_ASSIGN_T:
         case C_ASSIGN_V:
-          o.a[1] = (int64_t)r.below(14); // address class
+          o.a[1] = (int64_t)r.below(16); // address class
           o.a[3] = (int64_t)r.below((uint64_t)size);
+          o.a[4] = (int64_t)r.below(3); // pointee type of the raw pointer: char / int / double
+          o.a[5] = (int64_t)r.below(4); // bit0: destination already holds a pointer; bit1: destination cell lives in another sandbox
           break;
         case P_ADD:
         case P_SUB:
@@ -362,7 +364,7 @@ struct MemWorld : World
           o.a[1] = (int64_t)r.below(4);
           break;
         case P_FIELD_ADDR:
-          o.a[1] = (int64_t)r.below(9);
+          o.a[1] = r.chance(1, 4) ? (int64_t)r.range(9, 10) : (int64_t)r.below(11);
           o.a[3] = r.chance(1, 2) ? (int64_t)r.below(8) : interesting_n(r); // index into a fixed array field
           o.a[4] = (int64_t)r.below(5);
           o.a[5] = (int64_t)r.below(3);
@@ -724,6 +726,8 @@ struct MemWorld : World
     if (o == OK) {
       if (op.a[3] == 1 && p != nullptr)
         C->violate("C04", "null_not_preserved@malloc", "backend returned representation 0, application got a non-null pointer");
+      else if (calls == 0)
+        C->violate("C14", "allocation_not_served_inside_window@malloc", "sandbox #%d is created, yet the request never reached the backend allocator", s);
       push<T>(s, p, "malloc");
     }
   }
@@ -1022,69 +1026,116 @@ struct MemWorld : World
     }
   }
 
-  void do_c02(const Op& op)
+  template<class T>
+  void do_c02_t(const Op& op)
   {
+    constexpr int NCLS = 16;
     int s = pick_sbx(op.a[0]);
     SbxState& st = S[(size_t)s];
     bool defined;
-    uintptr_t addr = addr_class(s, (int)((uint64_t)op.a[1] % 14), (int)op.a[2], op.a[3], defined);
-    if (!defined)
-      return;
+    int cls = (int)((uint64_t)op.a[1] % NCLS);
+    uintptr_t addr;
+    if (cls == 14 || cls == 15) {
+      // a few bytes below the first byte / below the end: the pointee of a multi-byte type may straddle the edge
+      if (st.state != 1)
+        return;
+      unsigned k = 1 + (unsigned)((uint64_t)op.a[3] % 7);
+      addr = cls == 14 ? st.base() - k : st.base() + st.size() - k;
+      C->probe("address_within_a_pointee_of_the_sandbox_edge");
+    } else {
+      addr = addr_class(s, cls, (int)op.a[2], op.a[3], defined);
+      if (!defined)
+        return;
+    }
     bool inside = st.state == 1 && addr >= st.base() && addr - st.base() < st.size();
-    char* raw = reinterpret_cast<char*>(addr);
+    T* raw = reinterpret_cast<T*>(addr);
     const char* opn = kKind[op.kind];
+    auto refusal = [&](Outcome o) {
+      C->violate("C02",
+                 std::string(inside ? "in_sandbox_address_refused@" : "foreign_address_accepted@") + opn,
+                 "address class %d, pointee of %zu bytes, outcome %s",
+                 cls,
+                 sizeof(T),
+                 oname(o));
+    };
     if (op.kind == C_ACCEPT) {
-      TP<char> t = nullptr;
+      TP<T> t = nullptr;
       Outcome o = attempt([&] { t = st.sb->UNSAFE_accept_pointer(raw); });
-      C->ev("accept cls %d -> %s", (int)op.a[1], oname(o));
+      C->ev("accept<%zu> cls %d -> %s", sizeof(T), cls, oname(o));
       if ((o == OK) != inside) {
-        C->violate("C02", std::string(inside ? "in_sandbox_address_refused@" : "foreign_address_accepted@") + opn, "address class %d", (int)((uint64_t)op.a[1] % 14));
+        refusal(o);
         return;
       }
       if (o == OK) {
         if ((uintptr_t)t.UNSAFE_unverified() != addr)
-          C->violate("C02", std::string("accepted_value_differs@") + opn, "class %d", (int)op.a[1]);
+          C->violate("C02", std::string("accepted_value_differs@") + opn, "class %d", cls);
         else
-          push<char>(s, t, opn);
+          push<T>(s, t, opn);
       }
     } else if (op.kind == C_ASSIGN_T) {
-      Handle* h = pick(op.a[4], T_CHAR);
-      TP<char> t = nullptr;
-      if (h && (op.a[5] & 1))
-        t = std::get<TP<char>>(h->v);
+      TP<T> t = nullptr;
+      if (op.a[5] & 1) {
+        // destination already holds a valid pointer
+        Outcome pre = attempt([&] { t = rlbox::sandbox_reinterpret_cast<T*>(st.scratch); });
+        (void)pre;
+      }
       uintptr_t prev = (uintptr_t)t.UNSAFE_unverified();
       Outcome o = attempt([&] { t.assign_raw_pointer(*st.sb, raw); });
-      C->ev("assign_raw tainted cls %d -> %s", (int)op.a[1], oname(o));
+      C->ev("assign_raw tainted<%zu> cls %d -> %s", sizeof(T), cls, oname(o));
       if ((o == OK) != inside) {
-        C->violate("C02", std::string(inside ? "in_sandbox_address_refused@" : "foreign_address_accepted@") + opn, "address class %d", (int)((uint64_t)op.a[1] % 14));
+        refusal(o);
         return;
       }
       uintptr_t now = (uintptr_t)t.UNSAFE_unverified();
       if (o == OK && now != addr)
-        C->violate("C02", std::string("accepted_value_differs@") + opn, "class %d", (int)op.a[1]);
+        C->violate("C02", std::string("accepted_value_differs@") + opn, "class %d", cls);
       else if (o != OK && now != prev)
-        C->violate("C02", std::string("destination_changed_by_refused_assignment@") + opn, "class %d", (int)op.a[1]);
+        C->violate("C02", std::string("destination_changed_by_refused_assignment@") + opn, "class %d", cls);
       else if (o == OK)
-        push<char>(s, t, opn);
+        push<T>(s, t, opn);
     } else {
       if (st.state != 1)
         return;
-      auto cell = rlbox::sandbox_reinterpret_cast<char**>(st.pcell);
-      uint32_t celloff = (uint32_t)((uintptr_t)st.pcell.UNSAFE_unverified() - st.base());
+      // the destination cell normally lives in the same sandbox; sometimes in ANOTHER live sandbox
+      // (the sandbox that is passed decides what is acceptable, wherever the cell is)
+      SbxState* cs = &st;
+      if (op.a[5] & 2)
+        for (auto& o2 : S)
+          if (&o2 != &st && o2.state == 1) {
+            cs = &o2;
+            C->probe("destination_cell_in_another_sandbox");
+            break;
+          }
+      auto cell = rlbox::sandbox_reinterpret_cast<T**>(cs->pcell);
+      uint32_t celloff = (uint32_t)((uintptr_t)cs->pcell.UNSAFE_unverified() - cs->base());
       PT prev;
-      memcpy(&prev, st.impl()->gptr(celloff), sizeof prev);
+      memcpy(&prev, cs->impl()->gptr(celloff), sizeof prev);
       Outcome o = attempt([&] { (*cell).assign_raw_pointer(*st.sb, raw); });
-      C->ev("assign_raw volatile cls %d -> %s", (int)op.a[1], oname(o));
+      C->ev("assign_raw volatile<%zu> cls %d cell_in_own=%d -> %s", sizeof(T), cls, (int)(cs == &st), oname(o));
       if ((o == OK) != inside) {
-        C->violate("C02", std::string(inside ? "in_sandbox_address_refused@" : "foreign_address_accepted@") + opn, "address class %d", (int)((uint64_t)op.a[1] % 14));
+        refusal(o);
         return;
       }
       PT now;
-      memcpy(&now, st.impl()->gptr(celloff), sizeof now);
+      memcpy(&now, cs->impl()->gptr(celloff), sizeof now);
       if (o == OK && now != (PT)(addr - st.base()))
         C->violate("C02", std::string("stored_representation_wrong@") + opn, "guest cell holds %llu expected %llu", (unsigned long long)now, (unsigned long long)(addr - st.base()));
       else if (o != OK && now != prev)
         C->violate("C02", std::string("destination_changed_by_refused_assignment@") + opn, "guest cell %llu -> %llu", (unsigned long long)prev, (unsigned long long)now);
+    }
+  }
+  void do_c02(const Op& op)
+  {
+    switch ((int)((uint64_t)op.a[4] % 3)) {
+      case 0:
+        do_c02_t<char>(op);
+        break;
+      case 1:
+        do_c02_t<int>(op);
+        break;
+      default:
+        do_c02_t<double>(op);
+        break;
     }
   }
 
@@ -1194,9 +1245,25 @@ struct MemWorld : World
     auto& t = std::get<TP<SimNode>>(h->v);
     if (haddr(*h) == 0)
       C->probe("field_addr_on_null_pointer");
-    int f = (int)((uint64_t)op.a[1] % 9);
+    int f = (int)((uint64_t)op.a[1] % 11);
     Outcome o = attempt([&] {
       switch (f) {
+        case 9:
+        case 10: {
+          // nested fixed array: row index (any integer type / wrapper), then column
+          auto gp = rlbox::sandbox_reinterpret_cast<SimGrid*>(t);
+          if (op.a[2] & 8) // the grid occupies the very last bytes of the region
+            gp = S[(size_t)s].sb->UNSAFE_accept_pointer(reinterpret_cast<SimGrid*>(S[(size_t)s].base() + S[(size_t)s].size() - sizeof(SimGrid)));
+          int64_t col = op.a[2] % 5; // 4 is out of range: must abort
+          with_n(s, (int)((uint64_t)op.a[4] % 5), (int)((uint64_t)op.a[5] % 3), op.a[3], [&](auto& row) {
+            if (f == 9)
+              push<int>(s, &gp->m[row][col], "field_addr");
+            else
+              push<char>(s, rlbox::sandbox_reinterpret_cast<char*>(&gp->m[row]), "field_addr");
+          });
+          C->probe("nested_array_field_indexed");
+          break;
+        }
         case 7:
           // element of a fixed array field, index of any integer type and wrapper form (bounds-checked: abort or in range)
           with_n(s, (int)((uint64_t)op.a[4] % 5), (int)((uint64_t)op.a[5] % 3), op.a[3], [&](auto& nv) { push<char>(s, &t->name[nv], "field_addr"); });
